@@ -49,6 +49,8 @@ pub struct Sh {
     pub faults_on: Cell<bool>,
     /// child index at which the last injected register fault struck
     pub fail_at: Cell<usize>,
+    /// the last injected unregister fault struck after every child had been unregistered
+    pub late_fault: Cell<bool>,
     /// composite: the transient child answers Remove the next time it fires
     pub child_remove: Cell<bool>,
 }
@@ -287,6 +289,12 @@ impl<const L: bool> EventSource for Scr<L> {
             g.unregister(poll)?;
         }
         self.sh.registered.set(false);
+        // second fault point: everything is unregistered, but the call still reports a failure
+        if self.fault() {
+            bump(&self.sh.reg_fail);
+            self.sh.late_fault.set(true);
+            return Err(injected());
+        }
         Ok(())
     }
 
@@ -412,6 +420,12 @@ pub struct RA {
     pub op_fail0: u32,
     /// an enable() of this disabled source failed and nothing has succeeded on it since: it is still disabled
     pub enable_failed: bool,
+    /// inserted at the second attempt (the first one was rejected by an injected fault): one more
+    /// register call, and the first attempt's callback has been dropped
+    pub retried: bool,
+    /// a disable() reported a failure after the source had unregistered every child: it is known to
+    /// be fully unregistered, and a later successful enable() brings it back to a known state
+    pub clean_unreg: bool,
     /// removed, or disabled-with-failed-enable, when the current dispatch began
     pub dead0: bool,
     pub life_owed: bool,
@@ -545,6 +559,8 @@ impl RCtx {
             op_fail: 0,
             op_fail0: 0,
             enable_failed: false,
+            retried: false,
+            clean_unreg: false,
             dead0: false,
             life_owed: false,
             synth_owed: None,
@@ -628,6 +644,11 @@ impl RCtx {
         };
         match res {
             Ok(tok) => {
+                if retried {
+                    ra.retried = true;
+                    ra.reg.0 += 1;
+                    ra.reg.1 += 1;
+                }
                 rt.token = Some(tok);
                 sh.reg_key.set(Some(calloop::verif::registration_key(&tok)));
                 if matches!(spec, Spec::PastTimer) {
@@ -1108,6 +1129,7 @@ impl RCtx {
             ROp::Disable(i) | ROp::Enable(i) | ROp::Update(i) => {
                 let tok = self.rt[i].token.unwrap();
                 let f0 = self.rt[i].sh.reg_fail.get();
+                self.rt[i].sh.late_fault.set(false);
                 let r = match op {
                     ROp::Disable(_) => self.h.disable(&tok),
                     ROp::Enable(_) => self.h.enable(&tok),
@@ -1120,6 +1142,13 @@ impl RCtx {
                     ROp::Disable(_) => {
                         a.unreg.0 += 1;
                         a.unreg.1 += 1;
+                        if in_dispatch {
+                            // a synthetic event of this batch that has not been served yet reaches
+                            // a disabled source and is dropped (disabled sources get nothing): the
+                            // next callback of this source, if it is enabled again in time, is for
+                            // its real event
+                            a.synth_owed = None;
+                        }
                     }
                     ROp::Enable(_) => {
                         a.reg.0 += 1;
@@ -1132,6 +1161,17 @@ impl RCtx {
                 }
                 if in_dispatch {
                     a.disturbed = true;
+                }
+                let late = self.rt[i].sh.late_fault.replace(false);
+                if faulted && !(late && matches!(op, ROp::Disable(_))) {
+                    // any other failed call leaves the source half-way again
+                    a.clean_unreg = false;
+                }
+                if faulted && late && matches!(op, ROp::Disable(_)) && !a.loose && !a.broken && !in_dispatch {
+                    // the source did unregister everything and then reported an error: disable()
+                    // returns it; the source is out of the poller and out of the lifecycle set
+                    a.enabled = false;
+                    a.clean_unreg = true;
                 }
                 if faulted {
                     a.enable_failed = matches!(op, ROp::Enable(_)) && !a.enabled && !a.loose && r.is_err();
@@ -1159,6 +1199,13 @@ impl RCtx {
                             ROp::Enable(_) => {
                                 a.enabled = true;
                                 a.lat_pe = None;
+                                if a.clean_unreg && !in_dispatch {
+                                    // registered afresh from a fully unregistered state: an
+                                    // ordinary enabled source again, every clause applies
+                                    a.clean_unreg = false;
+                                    a.loose = false;
+                                    a.broken = false;
+                                }
                             }
                             _ => {}
                         }
@@ -1208,7 +1255,7 @@ impl RCtx {
             a.bs0 = sh.bs.get();
             a.fail0 = sh.reg_fail.get();
             a.op_fail0 = a.op_fail;
-            a.dead0 = !a.alive || a.enable_failed;
+            a.dead0 = !a.alive || a.enable_failed || (a.clean_unreg && !a.enabled);
             a.bhe0 = sh.bhe.get();
             a.pe0 = sh.pe.get();
             a.synth_seen = false;
@@ -1312,7 +1359,7 @@ impl RCtx {
                     // business, but it is still one source: never more than one call of each hook per
                     // dispatch, and none at all once it is removed or while it is still disabled
                     // because the enable() that would have brought it back returned an error.
-                    let state = if !a.dead0 { "after failed call" } else if !a.alive { "removed" } else { "disabled (enable failed)" };
+                    let state = if !a.dead0 { "after failed call" } else if !a.alive { "removed" } else if a.clean_unreg { "disabled (disable reported an error after unregistering)" } else { "disabled (enable failed)" };
                     self.violate(&["C14", "C15"], "lifecycle-after-failed-call", &[("state", state.into())],
                         format!("lifecycle source {i} ({state}) got before_sleep {dbs}x / before_handle_events {dbhe}x in one dispatch (lifecycle-set multiplicity now {dup})"));
                 } else if !a.life_owed && !a.loose && !a.broken && !a.disturbed && (dbs != 0 || dbhe != 0) && self.m[i].spec == a.spec {
@@ -1407,7 +1454,7 @@ impl RCtx {
             if !a.alive && (sd != 1 || cd != 1) {
                 self.violate(&["C06", "C09"], "not-released", &[("kind", "Scripted".into())], format!("removed source {i}: source dropped {sd}x, callback {cd}x"));
             }
-            if a.alive && (sd != 0 || cd != 0) {
+            if a.alive && (sd != 0 || cd != a.retried as u32) {
                 self.violate(&["C06"], "dropped-while-inserted", &[], format!("inserted source {i} was dropped"));
             }
             if !a.alive && sh.registered.get() && !self.any_fault {
